@@ -206,6 +206,38 @@ def neighbour_summary(ctx, p, callee_fn):
     return res
 
 
+def inbody_neighbour_centre(ctx, p, fn, src):
+    """`src` is a list built in this function (e.g. a neighbour helper analysed in its caller's context): if every push of an
+    index x into it is guarded by `distance(C, cont[x].state) < R` for one and the same state C, return norm_state(C)"""
+    cr = P.list_creations(src)
+    if not cr or not all(n in cr or n[0] in ('out', 'clone') for n in src):
+        return None
+    guards = radius_guards(ctx, p, fn)
+    sfields = {c['state_field'] for c in p['containers'].values()}
+    centre = None
+    pushes = P.list_pushes(fn, cr)
+    if not pushes:
+        return None
+    for (pb, x, _t) in pushes:
+        hit = None
+        for g in guards:
+            if not P.guarded(fn, pb, g['true_edges']):
+                continue
+            gf, gt = P.norm_state(ctx, p, fn, g['from']), P.norm_state(ctx, p, fn, g['to'])
+            for (u, v) in ((gf, gt), (gt, gf)):
+                # v = cont[x].state
+                if len(v) == 1:
+                    vn = next(iter(v))
+                    if vn[0] == 'field' and vn[2] in sfields and len(vn[1]) == 1:
+                        ix = next(iter(vn[1]))
+                        if ix[0] == 'index' and ix[2] == P.dealias_elements(x):
+                            hit = u
+        if hit is None or (centre is not None and centre != hit):
+            return None
+        centre = hit
+    return centre
+
+
 def run(ctx, tier):
     r_steer = RuleResult('C05.steer', 'new state = target if d <= max else interpolate(near, target, max/d) with t < 1; near is the linked node')
     r_rad = RuleResult('C05.radius', 'every non-steered link is guarded by distance(x,y) < R on its two end points')
